@@ -7,7 +7,7 @@ from typing import List, Optional
 from experimaestro import Annotated, Meta, Option, Param, default, help, pathgenerator
 
 from . import zoo
-from .zoo import Color, Shade  # noqa: F401  (same enum classes: the enum's module is part of the signature)
+from .zoo import Color, Level, Mode, Shade  # noqa: F401  (same enum classes: the enum's module is part of the signature)
 
 
 def _extend(base):
